@@ -207,6 +207,14 @@ def mon_c15(case, lines, meta):
                 return "caller %s put to sleep although timeout_duration is zero" % c
         elif k == "meta" and w[0] == "#wake":
             c = w[1]
+            if nxt is not None and nxt[0] == "meta" and nxt[1][:2] == ["#wake", c]:
+                # the future woke itself during this poll and is polled again within the same step (no time
+                # passes, as on an executor): the decision is due by the end of the step, not of its first poll;
+                # the wake-up instants of the step are those of all its polls
+                nk, nw, nt = nxt
+                ev[i + 1] = (nk, nw[:2] + [w[2] + "," + nw[2]] + nw[3:], nt)
+                i += 1
+                continue
             if c in fp and c not in admitted and c not in rejected:
                 # a sleeping caller whose timer fired: this poll is its second try_acquire and must decide
                 wk = [int(x) for x in w[2].split(",")]
